@@ -50,7 +50,7 @@ def design_checks(ctx, kd):
     st = tr = 0
     for fam, lay, c0, hooks, d in plan:
         cfg = ctx.path(f"design_{fam}_{lay}.cfg")
-        mc_cfg(cfg, fam, lay, c0, hooks, d, ALL_FINDINGS, [], ["ConformsIdeal", "Returns", "GhostSane"], deadlock=False)
+        mc_cfg(cfg, fam, lay, c0, hooks, d, ALL_FINDINGS, [], ["ConformsIdeal", "Returns", "GhostSane"], deadlock=True)
         r = lib.tlc(ctx, MODULE_MC, cfg, timeout=900)
         st += r["distinct"]; tr += r["generated"]
     res["repaired_machine_satisfies_property"] = {"configs": len(plan), "distinct_states": st}
@@ -59,6 +59,10 @@ def design_checks(ctx, kd):
     mc_cfg(cfg, "core", "md", 1, False, 4, [], [], ["Returns"])
     r = lib.tlc(ctx, MODULE_MC, cfg, timeout=600, expect_violation=True)
     res["asis_F12a_every_call_returns_refuted"] = "Returns" in r["invariant_violated"]
+    cfg = ctx.path("design_asis_a2.cfg")
+    mc_cfg(cfg, "core", "md", 1, False, 4, [], [], [], deadlock=True)
+    r = lib.tlc(ctx, MODULE_MC, cfg, timeout=600, expect_violation=True)
+    res["asis_F12a_tlc_deadlock_in_call_submachine"] = bool(r["deadlock"])
     # as-is with the lock repaired: a stale value is served (F12b) ...
     cfg = ctx.path("design_asis_b.cfg")
     mc_cfg(cfg, "core", "md", 1, False, 4, ["F12a"], [], ["ConformsIdeal"])
@@ -74,7 +78,7 @@ def design_checks(ctx, kd):
     ctx.cov["transitions"] += tr
     ctx.cov["design_checks"] = res
     ctx.stage("design", **{k: (v if not isinstance(v, dict) else v["distinct_states"]) for k, v in res.items()})
-    if not (res["asis_F12a_every_call_returns_refuted"] and res["asis_F12b_coherence_refuted"]):
+    if not (res["asis_F12a_every_call_returns_refuted"] and res["asis_F12a_tlc_deadlock_in_call_submachine"] and res["asis_F12b_coherence_refuted"]):
         # the model no longer shows the candidate defects: the spec was edited inconsistently
         raise lib.ToolError(f"design check: as-is machine not refuted as recorded: {res}")
 
@@ -137,14 +141,18 @@ def run_programs(ctx, tag, lines, jobs=1, shards=12):
 
 def selftest(ctx, trace, kd):
     """Binding self-test: corrupt one logged field / drop one event -> the monitor must flag exactly there."""
-    lines = lib.read_lines(trace)
-    hit = next(i for i, l in enumerate(lines) if '"op":"get"' in l and ('"res":"v1"' in l or '"res":"v2"' in l))
-    lines = lines[max(0, hit - 1500):hit + 4500]
-    while lines and not lib.is_new(lines[0]):
-        lines.pop(0)
-    while lines and not lib.is_new(lines[-1]):
-        lines.pop()
-    lines.pop()
+    if ctx.violations:
+        ctx.cov["binding_selftest"] = {"skipped": "violations were already reported on this trace"}
+        return
+    # whole runs that contain a get answering a value (so that there is something to corrupt)
+    runs, cur = [], []
+    for l in lib.read_lines(trace):
+        if lib.is_new(l) and cur:
+            runs.append(cur); cur = []
+        cur.append(l)
+    runs.append(cur)
+    good = [r for r in runs if any('"op":"get"' in l and ('"res":"v1"' in l or '"res":"v2"' in l) for l in r) and not any('"hang"' in l for l in r)]
+    lines = [l for r in good[:400] for l in r]
     cfg = t_cfg(ctx, kd)
     p0 = ctx.path("selftest_0.ndjson"); open(p0, "w").write("\n".join(lines) + "\n")
     base = lib.tlc_trace(ctx, MODULE_T, cfg, p0)
@@ -154,8 +162,11 @@ def selftest(ctx, trace, kd):
     la = list(lines); la[ia] = json.dumps(e, separators=(",", ":"))
     pa = ctx.path("selftest_a.ndjson"); open(pa, "w").write("\n".join(la) + "\n")
     # (b) a projection: one held entry reported as absent
-    ib = next(i for i, l in enumerate(lines) if i > ia and '"obs"' in l and '"op":"put' in l and (i + 1) not in base["violations"])
-    e = json.loads(lines[ib]); k = e["k"] if "k" in e else e["items"][-1]["k"]
+    def held_after_put(l):
+        e = json.loads(l)
+        return e.get("op") in ("put", "put_layer") and e.get("res") == "ok" and any(lay[e["k"]] != "none" for lay in e["obs"])
+    ib = next(i for i, l in enumerate(lines) if i > ia and '"op":"put' in l and held_after_put(l) and (i + 1) not in base["violations"])
+    e = json.loads(lines[ib]); k = e["k"]
     for lay in e["obs"]:
         if lay[k] != "none":
             lay[k] = "none"
@@ -196,7 +207,9 @@ def known(ctx):
         f = json.load(open(p))
         if f.get("status", "known") == "known" and f["id"] not in have and f["property"] == "C12":
             ctx.known.setdefault("findings", []).append(f)
-    return lib.known_ids(ctx, "C12")
+    # development aid (never set by registered commands): judge as if these findings were already fixed
+    assume_fixed = set(filter(None, os.environ.get("VERIF_C12_ASSUME_FIXED", "").split(",")))
+    return [f for f in lib.known_ids(ctx, "C12") if f not in assume_fixed]
 
 
 def run(ctx):
